@@ -22,14 +22,18 @@
 (* statement talks about (num_points, shape, extents).                     *)
 (* Every property is its own INVARIANT; TLC checks them on every case of   *)
 (* the bounded domain (Profiles), DumpCases writes one row per case which  *)
-(* harness/props/C25.py replays through the real plans.                    *)
+(* harness/props/C25.py replays through the real plans.  (The cases are    *)
+(* successors of NBlocks initial "block" states only so that TLC's workers *)
+(* share them; TLC reports NBlocks more states than there are cases.)      *)
 (***************************************************************************)
 EXTENDS Integers, Sequences, SequencesExt, FiniteSets, TLC, Json, IOUtils
 
 CONSTANTS Profiles      \* set of [kind, nmin, nmax, lo, hi, maxnum, maxtotal, strict]: the bounded input domain
 
-VARIABLES case, pts, md
-vars == <<case, pts, md>>
+VARIABLES case, pts, md,
+          ord,      \* meshes: the index order (Snake!SnakeOrder), computed once; <<>> otherwise
+          blk       \* > 0: a block of the domain still to be expanded (lets TLC's workers share the cases); 0: a case
+vars == <<case, pts, md, ord, blk>>
 
 ----------------------------------------------------------------------------
 \* exact rationals
@@ -60,7 +64,7 @@ S == INSTANCE Snake WITH MaxAxes <- 0, MaxLen <- 0, MaxTotal <- 0,
 Order(c) == S!SnakeOrder(Lens(c), c.snake)
 \* Snake's invariants, read on this module's case
 SV == INSTANCE Snake WITH MaxAxes <- 0, MaxLen <- 0, MaxTotal <- 0,
-                          lens <- Lens(case), flags <- case.snake, order <- Order(case)
+                          lens <- Lens(case), flags <- case.snake, order <- ord
 
 IsOuter(c) == c.kind = "outer"
 Lin(c, i) == Linspace(c.axes[i].start, c.axes[i].stop, c.axes[i].num)
@@ -69,8 +73,8 @@ Lin(c, i) == Linspace(c.axes[i].start, c.axes[i].stop, c.axes[i].num)
 PointsFrom(outer, lin, snake) ==
     LET n == Len(lin)
     IN IF outer
-       THEN LET ord == S!SnakeOrder([i \in 1..n |-> Len(lin[i])], snake)
-            IN [t \in 1..Len(ord) |-> [i \in 1..n |-> lin[i][ord[t][i] + 1]]]
+       THEN LET o == S!SnakeOrder([i \in 1..n |-> Len(lin[i])], snake)
+            IN [t \in 1..Len(o) |-> [i \in 1..n |-> lin[i][o[t][i] + 1]]]
        ELSE [k \in 1..Len(lin[1]) |-> [i \in 1..n |-> lin[i][k]]]
 Points(c) == PointsFrom(IsOuter(c), [i \in 1..NAx(c) |-> Lin(c, i)], c.snake)
 
@@ -120,9 +124,9 @@ Domain == UNION {CasesOf(p) : p \in Profiles}
 
 Prof(k, a, b, lo, hi, mn, mt, st) ==
     [kind |-> k, nmin |-> a, nmax |-> b, lo |-> lo, hi |-> hi, maxnum |-> mn, maxtotal |-> mt, strict |-> st]
-\* quick tier (2482 cases): inner product 100 + 324 + 192, meshes 100 + 1458 + 108, x2x 100, log 100
+\* quick tier (1312 cases): inner product 100 + 324 + 192, meshes 100 + 288 + 108, x2x 100, log 100
 ProfilesQuick == {Prof("inner", 1, 1, -2, 2, 4, 0, FALSE), Prof("inner", 2, 2, -1, 1, 4, 0, FALSE), Prof("inner", 3, 3, 0, 1, 3, 0, FALSE),
-                  Prof("outer", 1, 1, -2, 2, 4, 4, FALSE), Prof("outer", 2, 2, -1, 1, 3, 9, FALSE), Prof("outer", 3, 3, 0, 1, 3, 27, TRUE),
+                  Prof("outer", 1, 1, -2, 2, 4, 4, FALSE), Prof("outer", 2, 2, 0, 1, 3, 9, FALSE), Prof("outer", 3, 3, 0, 1, 3, 27, TRUE),
                   Prof("x2x", 2, 2, -2, 2, 4, 0, FALSE), Prof("log", 1, 1, -2, 2, 4, 0, FALSE)}
 \* thorough tier: the full assigned bounds (1-3 motors, num 1..4, starts/stops -2..2) for the inner product (65100 cases)
 \* and for meshes of 1-2 axes (100 + 20000); 3-axis meshes with start < stop in -1..1, num 1..3 (2916) and with
@@ -132,21 +136,32 @@ ProfilesThorough == {Prof("inner", 1, 3, -2, 2, 4, 0, FALSE), Prof("outer", 1, 2
                      Prof("x2x", 2, 2, -2, 2, 4, 0, FALSE), Prof("log", 1, 1, -2, 2, 4, 0, FALSE)}
 ProfilesNone == {}
 
-Init == /\ case \in Domain
-        /\ pts = Points(case)
-        /\ md = Md(case)
-Next == UNCHANGED vars
+\* The cases are the successors of NBlocks initial "block" states: TLC computes initial states in one thread but
+\* expands different states in different workers.
+DomSeq == SetToSeq(Domain)
+NBlocks == 64
+NoCase == [kind |-> "none", axes |-> <<>>, snake |-> <<>>]
+IsCase == blk = 0
+Init == /\ blk \in 1..NBlocks
+        /\ case = NoCase /\ pts = <<>> /\ md = [num_points |-> 0, shape |-> <<>>, extents |-> <<>>] /\ ord = <<>>
+Next == /\ blk > 0
+        /\ \E j \in {x \in 1..Len(DomSeq) : x % NBlocks = blk - 1} :
+              /\ case' = DomSeq[j]
+              /\ pts' = Points(DomSeq[j])
+              /\ md' = Md(DomSeq[j])
+              /\ ord' = IF IsOuter(DomSeq[j]) THEN Order(DomSeq[j]) ELSE <<>>
+        /\ blk' = 0
 Spec == Init /\ [][Next]_vars
 
 ----------------------------------------------------------------------------
 \* Properties (statement vocabulary)
 N == NAx(case)
 
-TypeOK == /\ \A t \in 1..Len(pts) : Len(pts[t]) = N /\ \A i \in 1..N : IsRat(pts[t][i])
+Holds_TypeOK == /\ \A t \in 1..Len(pts) : Len(pts[t]) = N /\ \A i \in 1..N : IsRat(pts[t][i])
           /\ Len(case.snake) = N /\ ~case.snake[1]
 
 \* linspace: starts at start, ends at stop, equal steps
-C25_LinspaceEquallySpaced ==
+Holds_LinspaceEquallySpaced ==
     \A i \in 1..N :
         LET a == case.axes[i] L == Lin(case, i) IN
         /\ Len(L) = a.num
@@ -155,18 +170,18 @@ C25_LinspaceEquallySpaced ==
         /\ \A k \in 1..(a.num - 2) : RSub(L[k + 1], L[k]) = RSub(L[k + 2], L[k + 1])
 
 \* inner product: num points, point k is value k of every axis
-C25_InnerProduct ==
+Holds_InnerProduct ==
     ~IsOuter(case) =>
         /\ Len(pts) = case.axes[1].num
         /\ \A k \in 1..Len(pts) : \A i \in 1..N : pts[k][i] = Lin(case, i)[k]
 
 \* outer product: every combination exactly once (as index tuples), first axis slowest, requested snaking
-C25_OuterEveryCombinationOnce == IsOuter(case) => SV!Permutation
-C25_OuterRowMajor == IsOuter(case) => SV!UnsnakedProductOrder
-C25_OuterSnaking == IsOuter(case) => SV!SnakedReverses /\ SV!FastestChanged
-C25_OuterCoordinates ==
+Holds_OuterEveryCombinationOnce == IsOuter(case) => SV!Permutation
+Holds_OuterRowMajor == IsOuter(case) => SV!UnsnakedProductOrder
+Holds_OuterSnaking == IsOuter(case) => SV!SnakedReverses /\ SV!FastestChanged
+Holds_OuterCoordinates ==
     IsOuter(case) =>
-        LET ord == Order(case) IN
+        /\ ord = Order(case)
         /\ Len(pts) = Len(ord)
         /\ \A t \in 1..Len(pts) : \A i \in 1..N : pts[t][i] = Lin(case, i)[ord[t][i] + 1]
 
@@ -185,12 +200,12 @@ OneReadingPerPoint(sk) ==
         /\ \A i \in 1..N : PosAt(sk, cr[j], i) = pts[j][i]
         /\ ReadsBetween(sk, cr[j], sv[j]) = 1..(N + 1)
         /\ Cardinality({j2 \in cr[j]..sv[j] : sk[j2].c = "read"}) = N + 1
-C25_OneCheckpointedReadingPerPoint == OneReadingPerPoint(Skeleton(pts, N))
+Holds_OneCheckpointedReadingPerPoint == OneReadingPerPoint(Skeleton(pts, N))
 \* ... and the optional moves really are optional: dropping them leaves every reading at the same place
-C25_MandatoryMovesSuffice == OneReadingPerPoint(SelectSeq(Skeleton(pts, N), LAMBDA e : e.must))
+Holds_MandatoryMovesSuffice == OneReadingPerPoint(SelectSeq(Skeleton(pts, N), LAMBDA e : e.must))
 
 \* metadata consistent with what the plan does
-C25_MdConsistent ==
+Holds_MdConsistent ==
     /\ md.num_points = Len(pts)
     /\ md.num_points = Len(Idx(Skeleton(pts, N), "create"))
     /\ (IsOuter(case) /\ md.shape # <<>>) =>       \* plans over a mesh that record shape / extents (grid_scan, list_grid_scan)
@@ -203,6 +218,18 @@ C25_MdConsistent ==
             IN /\ \A v \in vis : RLe(lo, v) /\ RLe(v, hi)
                /\ md.shape[i] >= 2 => lo \in vis /\ hi \in vis
                /\ Cardinality(vis) <= md.shape[i]
+
+\* the properties proper: stated on cases (block states carry no case)
+TypeOK == IsCase => Holds_TypeOK
+C25_LinspaceEquallySpaced == IsCase => Holds_LinspaceEquallySpaced
+C25_InnerProduct == IsCase => Holds_InnerProduct
+C25_OuterEveryCombinationOnce == IsCase => Holds_OuterEveryCombinationOnce
+C25_OuterRowMajor == IsCase => Holds_OuterRowMajor
+C25_OuterSnaking == IsCase => Holds_OuterSnaking
+C25_OuterCoordinates == IsCase => Holds_OuterCoordinates
+C25_OneCheckpointedReadingPerPoint == IsCase => Holds_OneCheckpointedReadingPerPoint
+C25_MandatoryMovesSuffice == IsCase => Holds_MandatoryMovesSuffice
+C25_MdConsistent == IsCase => Holds_MdConsistent
 
 ----------------------------------------------------------------------------
 \* case dump for replay: one row per case
